@@ -185,6 +185,39 @@ func (s *scripted) refresh(r lookupRes) {
 	s.wait(s.next)
 }
 
+// blockedReads counts Hosts() calls that did not return within the bounded wait
+var blockedReads int
+
+const blockedMarker = "<no progress: Hosts() blocked while a lookup is in flight>"
+
+// hostsBounded calls Hosts() and gives up after a bounded wait.  On the unchanged code Hosts()
+// never waits for anything but a writer that is copying a slice header, so the limit (10 s, 2 s
+// once a read has blocked before) is never a synchronisation device: it only turns a read that
+// cannot complete while the scripted lookup is in flight into a failing observation instead of
+// a generator that hangs.  A blocked call leaves its goroutine parked.
+func hostsBounded(sub sd.Subscriber) (h []string, err error, blocked bool) {
+	type res struct {
+		h   []string
+		err error
+	}
+	ch := make(chan res, 1)
+	go func() {
+		h, err := sub.Hosts()
+		ch <- res{h, err}
+	}()
+	limit := 10 * time.Second
+	if blockedReads > 0 {
+		limit = 2 * time.Second
+	}
+	select {
+	case r := <-ch:
+		return r.h, r.err, false
+	case <-time.After(limit):
+		blockedReads++
+		return nil, nil, true
+	}
+}
+
 func runHistory(scheme string, evs []event) (obs [][]string, dead bool) {
 	nl := 0
 	for _, e := range evs {
@@ -205,7 +238,12 @@ func runHistory(scheme string, evs []event) (obs [][]string, dead bool) {
 		case "lookup":
 			s.refresh(res(e))
 		case "read":
-			h, err := s.sub.Hosts()
+			h, err, blocked := hostsBounded(s.sub)
+			if blocked {
+				// nothing after this event can be observed: the subscriber is stuck
+				obs = append(obs, []string{blockedMarker})
+				return obs, true
+			}
 			if err != nil {
 				h = []string{"<error: " + err.Error() + ">"}
 			}
@@ -337,8 +375,8 @@ func (g *gen) resolveCase(scheme string, rs []rec, stream string) {
 }
 
 func (g *gen) histCase(scheme string, evs []event, stream string) {
-	if refreshTimeouts >= 3 {
-		return // the refresh goroutine is gone: already reported three times
+	if refreshTimeouts >= 3 || blockedReads >= 3 {
+		return // the refresh goroutine is gone / reads block: already reported three times
 	}
 	obs, dead := runHistory(scheme, evs)
 	et := make([]string, len(evs))
@@ -865,5 +903,6 @@ func main() {
 		reb("http", a, b, "rebalance")
 	}
 	w.Meta["refresh_watchdog_timeouts"] = refreshTimeouts
+	w.Meta["blocked_reads"] = blockedReads
 	w.Close(fmt.Sprintf("corpus (30 weight vectors, 26 record sets incl. 100..1000 records, IPv6 and non-UTF-8 targets, 13 histories); exhaustive: compact/normalize/gcd on all vectors over {0,1,2,3,50,100,101,65535} of length 1..%d and resolve on all record lists of length 1..%d over priority {0,1} x weight {0,1,2,101,65534,65535} (3 records: {0,1,101,65535}) x target {a,b}; priority tiers at the boundaries: %d record sets (priority p / p+1 / p+2 for p in {0,7,65533}, lowest tier weights {0},{0,0},{0,1}, next tier weight 65535/65534/1/0 with its target sorting before / after / equal on another port, both input orders) and 2 histories with a drained lowest tier, plus random tiers (adjacent priorities, boundary weights); random: weight vectors (1..130, some 101..1000), record sets (duplicate targets, priorities 0..3 / 65535, ports 0..65535), histories of up to 14 events (successful / failing lookups with and without records, reads, callers scribbling over returned slices) through NewDetailedWithScheme with a scripted lookup; malformed: arbitrary byte targets, odd schemes, nil answers; rebalance: histories whose successive successful answers keep the targets and the list length and only redistribute the weights (blue/green 90/10 -> 10/90, permuted weights, a list over 100 entries with the duplicates moved); shuffle: sd.NewRandomFixedSubscriber on 0..400 hosts with the math/rand source seeded, compared element by element with the model applied to the rand.Perm result of the same seed. nontrivial = compact changes the weights / several priorities or weights / a failed refresh after a success or a scribble", maxLen, maxRec, nTiers), true)
 }
